@@ -67,6 +67,12 @@ class LanePair:
         e = strip(e)
         if depth > 10 or not isinstance(e, tuple) or not e:
             return None
+        z = self._zip_component(e)
+        if z is not None:
+            if self._from_coeffs(z):
+                c = strip(strip(strip(e[1])[1])[1])
+                return "next@%s.%s" % (c[1], e[2])
+            return None
         if e[0] in ("field", "variant", "proj"):
             return self.coeff_base(e[1], depth + 1)
         if e[0] in ("callat", "call"):
@@ -88,10 +94,43 @@ class LanePair:
             return "param:%s" % e[2]
         return None
 
+    def _zip_component(self, e):
+        """e = (next(it) as Some).0.<k> with it = zip(A, B): returns A or B, else None"""
+        e = strip(e)
+        if e[0] != "field" or str(e[2]) not in ("0", "1"):
+            return None
+        k = int(e[2])
+        b = strip(e[1])
+        if not (b[0] == "field" and str(b[2]) == "0"):
+            return None
+        v = strip(b[1])
+        if v[0] != "variant":
+            return None
+        c = strip(v[1])
+        if not (c[0] == "callat" and _name(c) == "next" and _args(c)):
+            return None
+        it = strip(_args(c)[0])
+        for _ in range(6):
+            if it[0] == "local":
+                ds = [d for d in self.sym.defs.get(it[1], []) if d[3]]
+                if len(ds) != 1:
+                    return None
+                it = strip(self.sym.rvalue(ds[0][2], ds[0][0], (ds[0][0], ds[0][1])))
+            elif it[0] in ("callat", "call") and _name(it) in ("into_iter", "by_ref", "iter"):
+                it = strip(_args(it)[0])
+            else:
+                break
+        if it[0] in ("callat", "call") and _name(it) == "zip" and len(_args(it)) == 2:
+            return _args(it)[k]
+        return None
+
     def _from_coeffs(self, e, depth=0):
         e = strip(e)
         if depth > 12 or not isinstance(e, tuple) or not e:
             return False
+        z = self._zip_component(e)
+        if z is not None:
+            return self._from_coeffs(z, depth + 1)
         if e[0] in ("callat", "call"):
             n = _name(e)
             if n in ("values", "remainder"):
@@ -122,7 +161,8 @@ class LanePair:
 
     def is_source(self, e):
         s = fmt(strip(e))
-        return bool(re.search(r"src_row|components\(|s_row", s)) and not self._from_coeffs(e)
+        return bool(re.search(r"src_row|components(@bb\d+)?\(|s_row|^map(@bb\d+)?\(next", s)) \
+            and not self._from_coeffs(e)
 
     # ---- offsets
     def offset(self, idx):
@@ -276,6 +316,11 @@ class LanePair:
         k = e[0]
         if k == "cast":
             return self.vec(e[2], depth + 1)
+        if k == "index":
+            base, ix = strip(e[1]), strip(e[2])
+            if base[0] == "agg" and base[1] == "array" and ix[0] == "const" and ix[1] < len(base[4]):
+                return self.vec(base[4][ix[1]], depth + 1)
+            return None
         if k == "local":
             ds = self.sym.defs.get(e[1], [])
             if len(ds) == 1 and ds[0][3]:
@@ -341,7 +386,11 @@ class LanePair:
             return (lo + hi) if hi and lo and len(lo) == 16 and len(hi) == 16 else None
         # moves
         if re.match(r"^_mm(256)?_shuffle_epi8$", n) and len(a) == 2:
-            src, mb = V(a[0]), mask_bytes(a[1])
+            me = strip(a[1])
+            if me[0] == "index" and strip(me[1])[0] == "agg" and strip(me[2])[0] == "const" \
+                    and strip(me[2])[1] < len(strip(me[1])[4]):
+                me = strip(me[1])[4][strip(me[2])[1]]
+            src, mb = V(a[0]), mask_bytes(me)
             if src is None or mb is None or len(mb) != len(src):
                 return None
             out = []
@@ -478,21 +527,74 @@ class LanePair:
 MULS = re.compile(r"^_mm(256)?_(madd_epi16|mul_epi32)$")
 
 
+def _range_vars(sym, e, acc=None):
+    """loop variables of small constant ranges inside e: {atom: (lo, hi)}"""
+    from .intervals import Intervals
+    acc = {} if acc is None else acc
+    if not isinstance(e, tuple) or not e:
+        return acc
+    if e[0] == "field" and str(e[2]) == "0" and isinstance(e[1], tuple) and e[1][0] == "variant" \
+            and e[1][1][0] == "callat" and e[1][1][2] == "next" and "range" in (e[1][1][4] if len(e[1][1]) > 4 else ""):
+        if e not in acc:
+            iv = Intervals(sym).iter_elem(e[1][1][3][0]) if e[1][1][3] else None
+            if iv is not None and 0 <= iv[0] <= iv[1] < iv[0] + 8:
+                acc[e] = iv
+        return acc
+    for x in e:
+        if isinstance(x, tuple):
+            _range_vars(sym, x, acc)
+    return acc
+
+
+def _fold(e):
+    """constant folding of index arithmetic after substituting loop variables"""
+    if not isinstance(e, tuple) or not e:
+        return e
+    if e[0] == "cast" and e[1] == "IntToInt":
+        inner = _fold(e[2])
+        if inner[0] == "const":
+            return ("const", inner[1], e[3])
+        return ("cast", e[1], inner, e[3])
+    if e[0] == "ovf":
+        return _fold(e[1])
+    if e[0] == "bin" and e[1] in ("Add", "Mul", "Sub"):
+        a, b = _fold(e[2]), _fold(e[3])
+        if a[0] == "const" and b[0] == "const" and isinstance(a[1], int) and isinstance(b[1], int):
+            v = {"Add": a[1] + b[1], "Mul": a[1] * b[1], "Sub": a[1] - b[1]}[e[1]]
+            return ("const", v, a[2] if len(a) > 2 else "usize")
+        if e[1] == "Add" and b[0] == "const" and b[1] == 0:
+            return a
+        return ("bin", e[1], a, b)
+    return tuple(_fold(x) if isinstance(x, tuple) else x for x in e)
+
+
+def _row_index(row):
+    """index of a source row inside the group of rows the iterator handed out: `...[1])` -> 1"""
+    m = re.search(r"\[(\w+(?:@bb\d+\([^)]*\))?(?: as Some\.0)?)\]\)*$", row)
+    return m.group(1) if m else "0"
+
+
 def pairing(rep, prog, rule, floor=150):
-    rep.rule(rule, "in every horizontal x86 SIMD convolution kernel each multiply pairs source "
-             "pixel j of the current coefficient chunk with coefficient j (byte-level symbolic "
-             "evaluation of the operands through loads, constant shuffle masks, unpacks, "
-             "zero-extensions and broadcasts): off // pixel_size == j, whole components, one row "
-             "and one component per accumulator lane, and within a chunk every coefficient is used "
-             "exactly once per row and component - which is what the portable code computes")
+    rep.rule(rule, "in every x86 SIMD convolution kernel each multiply pairs the right source "
+             "element with the right coefficient (byte-level symbolic evaluation of the operands "
+             "through loads, constant shuffle masks, unpacks, zero-extensions and broadcasts). "
+             "Horizontal kernels: source pixel j of the current coefficient chunk meets coefficient "
+             "j (off // pixel_size == j), whole components, one row and one component per "
+             "accumulator lane, every coefficient of a chunk used exactly once per row and "
+             "component. Vertical kernels: source row r of the current group of rows meets "
+             "coefficient r, one column offset per accumulator lane, every coefficient used once "
+             "per column. This is what the portable code computes")
     n = und = 0
     for f in sorted(prog.fns.values(), key=lambda x: x.id):
         m = re.match(r"^convolution::(u8|u16)x(\d)::(sse4|avx2)::horiz_convolution", f.name)
-        if not m or f.kind == "closure":
+        mv = re.match(r"^convolution::vertical_(u8|u16)::(sse4|avx2)::vert_convolution", f.name)
+        if not (m or mv) or f.kind == "closure":
             continue
-        cs = 1 if m.group(1) == "u8" else 2
-        ps = cs * int(m.group(2))
-        ks = 2 if m.group(1) == "u8" else 4
+        vertical = mv is not None
+        kind = (mv or m).group(1)
+        cs = 1 if kind == "u8" else 2
+        ps = cs if vertical else cs * int(m.group(2))
+        ks = 2 if kind == "u8" else 4
         sites = [c for c in f.calls() if MULS.match(c.method or short(c.name)) and len(c.args) == 2]
         if not sites:
             continue
@@ -503,14 +605,30 @@ def pairing(rep, prog, rule, floor=150):
             n += 1
             nm = c.method or short(c.name)
             key = "%s|%s#%d" % (f.name, nm, idx)
-            A = lp.vec(lp.sym.operand(c.args[0], (c.bb, "term")))
-            B = lp.vec(lp.sym.operand(c.args[1], (c.bb, "term")))
-            if A is None or B is None or len(A) != len(B):
+            ea = lp.sym.operand(c.args[0], (c.bb, "term"))
+            eb = lp.sym.operand(c.args[1], (c.bb, "term"))
+            rv = _range_vars(lp.sym, ea)
+            _range_vars(lp.sym, eb, rv)
+            combos = [{}]
+            for atom, (lo, hi) in sorted(rv.items(), key=repr):
+                combos = [dict(list(cmb.items()) + [(atom, v)]) for cmb in combos for v in range(lo, hi + 1)][:64]
+            lanes, failed = [], None
+            for cmb in combos:
+                if cmb:
+                    from .validators import subst as esubst
+                    mp = {a_: ("const", v, "usize") for a_, v in cmb.items()}
+                    xa, xb = _fold(esubst(ea, mp)), _fold(esubst(eb, mp))
+                else:
+                    xa, xb = ea, eb
+                A, B = lp.vec(xa), lp.vec(xb)
+                if A is None or B is None or len(A) != len(B):
+                    failed = "first" if A is None else "second"
+                    break
+                lanes += lp.multiply(nm, A, B)
+            if failed:
                 und += 1
-                rep.unk(rule, key, c.at, "operand of %s is not followed (%s)" % (
-                    nm, "first" if A is None else "second"))
+                rep.unk(rule, key, c.at, "operand of %s is not followed (%s)" % (nm, failed))
                 continue
-            lanes = lp.multiply(nm, A, B)
             unk = [l for l in lanes if isinstance(l, tuple)]
             if unk:
                 und += 1
@@ -523,21 +641,31 @@ def pairing(rep, prog, rule, floor=150):
                     if nb != cs or (off % ps) % cs != 0:
                         bad = "lane %d multiplies %d byte(s) at source offset %d: not a whole %d-byte " \
                               "component" % (L, nb, off, cs)
-                    elif off // ps != j:
-                        bad = "lane %d multiplies pixel %d of the chunk (source byte %d) by " \
-                              "coefficient %d" % (L, off // ps, off, j)
-                    rc.add((row, (off % ps) // cs))
+                    elif vertical:
+                        r = _row_index(row)
+                        if r != str(j):
+                            bad = "lane %d multiplies source row %s of the group by coefficient %d" % (
+                                L, r, j)
+                        rc.add(off)
+                    else:
+                        if off // ps != j:
+                            bad = "lane %d multiplies pixel %d of the chunk (source byte %d) by " \
+                                  "coefficient %d" % (L, off // ps, off, j)
+                        rc.add((row, (off % ps) // cs))
                 if len(rc) > 1 and not bad:
-                    bad = "lane %d sums products of different rows / components %s" % (L, sorted(rc))
+                    bad = "lane %d sums products of different %s %s" % (
+                        L, "columns" if vertical else "rows / components", sorted(rc))
             if bad:
-                rep.bad(rule, key + "|pairing", c.at, "%s: %s; the portable code multiplies pixel "
-                        "start + j by coefficient j for every component" % (f.name, bad))
+                rep.bad(rule, key + "|pairing", c.at, "%s: %s; the portable code multiplies %s" % (
+                    f.name, bad, "row y_start + r by coefficient r for every column" if vertical
+                    else "pixel start + j by coefficient j for every component"))
                 continue
             rep.ok(rule, key, c.at, "%d lanes, %d products paired" % (
                 len(lanes), sum(len(l) for l in lanes)))
             for terms in lanes:
                 for (row, off, base, j, nb) in terms:
-                    groups.setdefault((base, row, (off % ps) // cs), []).append(j)
+                    gk = (base, "col", off) if vertical else (base, row, (off % ps) // cs)
+                    groups.setdefault(gk, []).append(j)
         # coverage per coefficient chunk
         by_base = {}
         for (base, row, comp), js in groups.items():
@@ -552,13 +680,13 @@ def pairing(rep, prog, rule, floor=150):
             if wrong:
                 missing = [j for j in range(nmax) if j not in wrong[2]]
                 dup = sorted({j for j in wrong[2] if wrong[2].count(j) > 1})
-                rep.bad(rule, key, f.loc, "%s: for row %s component %d the chunk %s uses the "
-                        "coefficients %s%s%s (each of 0..%d must be used exactly once)" % (
-                            f.name, wrong[0], wrong[1], base, wrong[2],
-                            "; never used: %s" % missing if missing else "",
+                rep.bad(rule, key, f.loc, "%s: for %s %s the chunk %s uses the coefficients %s%s%s "
+                        "(each of 0..%d must be used exactly once)" % (
+                            f.name, "column" if vertical else "row %s component" % wrong[0], wrong[1],
+                            base, wrong[2], "; never used: %s" % missing if missing else "",
                             "; used twice: %s" % dup if dup else "", nmax - 1))
             else:
-                rep.ok(rule, key, f.loc, "coefficients 0..%d each used once for %d row/component "
-                       "combination(s)" % (nmax - 1, len(rows)))
-    rep.floor(rule, "multiplies in horizontal x86 kernels", n, floor)
+                rep.ok(rule, key, f.loc, "coefficients 0..%d each used once for %d %s" % (
+                    nmax - 1, len(rows), "column(s)" if vertical else "row/component combination(s)"))
+    rep.floor(rule, "multiplies in x86 convolution kernels", n, floor)
     rep.note("%s: %d of %d multiply sites are followed to their sources" % (rule, n - und, n))
